@@ -3,6 +3,7 @@ import ESV.Comp.CodegenF0e
 import ESV.Comp.CgFinal
 import ESV.Comp.CgFinal5
 import ESV.Comp.CgFallsSound
+import ESV.Comp.ProjectThms
 import ESV.Props.C01Backend
 /-
 C01, front end — what is proved about the compiler's front end (the code generator: `ESV.Comp.frontend`, model of
@@ -505,5 +506,54 @@ theorem falls_through_sound (rs : List (List LItem)) (r : Nat) (pre items post :
 /-- non-vacuity: a `forever` block without `break_loop` (`§1; a(); Jump→1; §2`) cannot be left; with a `break_loop` (`Jump→2`) it can -/
 example : fallsThrough [.label 1 false, .op ⟨1, "a", []⟩, .ljump ⟨2, "Jump", []⟩ (some 1), .label 2 false] = false := by decide
 example : fallsThrough [.label 1 false, .ljump ⟨1, "Jump", []⟩ (some 2), .ljump ⟨2, "Jump", []⟩ (some 1), .label 2 false] = true := by decide
+
+/-! ### fragment F6: F5 + imports -/
+
+/-- **The compiler is correct on projects with imports whose flattening is in F5.**  `flatten` (ESV/Comp/Project.lean) is the model of
+how `ExplorerScriptSsbCompiler._compile` collects the macros of imported files (imports resolved by the model of
+`_resolve_imported_file`, recursion check, routines in imported files rejected, `dict.update` order; replacing a macro by a macro of
+the same name from another file is outside the model: `nameClash`); `compileProject` = flatten, then `compile`.  For every project whose
+flattening `p` succeeds and is an F5 program and whose compilation succeeds: every routine of the main file behaves on the SSB
+machine as the language semantics of `p` says — a macro call means the body of the macro, wherever it was imported from.
+The tie "real multi-file compilation = the model's compilation of the flattened project" is checked by exact comparison of the op
+lists and tables on every generated layout of C05 (`comp.flatten`; evidence `F6:flattened_model_result_equals_real`, `in_F6`), as the
+single-file model is tied by C03. -/
+theorem compile_correct_F6 (P : Project) (fs : ESV.Macro.Imp.Comps → Bool) (cwd : ESV.Macro.Imp.Comps) (lookups : List ESV.Macro.Imp.Str)
+    (main : ESV.Macro.Imp.Comps) (p : Program) (res : Result) (hf : flatten P fs cwd lookups main = .ok p) (hp : F5Prog p)
+    (hc : compileProject P fs cwd lookups main = .ok (.ok res)) (j : Nat) (r : Routine) (hj : p.routines[j]? = some r) :
+    ∃ e, (toSrc p).graph.entries[j]? = some (some e) ∧
+      Equivalent (toSrc p).graph.lts (Machine.lts ⟨flatten (conv res.ops)⟩) e (Machine.entry ⟨flatten (conv res.ops)⟩ j) := by
+  simp only [compileProject, hf, Except.ok.injEq] at hc
+  exact compile_correct_F5 p res hp hc j r hj
+
+/-- the routines of the flattened project are the routines of the main file -/
+theorem flatten_keeps_routines (P : Project) (fs : ESV.Macro.Imp.Comps → Bool) (cwd : ESV.Macro.Imp.Comps) (lookups : List ESV.Macro.Imp.Str)
+    (main : ESV.Macro.Imp.Comps) (p : Program) (h : flatten P fs cwd lookups main = .ok p) :
+    ∃ f, P.lookup main = some f ∧ p.routines = f.routines := flatten_routines h
+
+/-- a file without imports (macro names distinct) is its own flattening: F6 says what F5 says about it -/
+theorem flatten_without_imports (P : Project) (fs : ESV.Macro.Imp.Comps → Bool) (cwd : ESV.Macro.Imp.Comps) (lookups : List ESV.Macro.Imp.Str)
+    (main : ESV.Macro.Imp.Comps) (f : PFile) (hf : P.lookup main = some f) (hi : f.imports = []) (hn : (f.macros.map (·.name)).Nodup) :
+    flatten P fs cwd lookups main = .ok ⟨f.macros, f.macroOrder, f.routines⟩ := flatten_single P fs cwd lookups main f hf hi hn
+
+/-- non-vacuity: `/p/main.exps`: `import "./lib/a.exps"; def 0 { ~m2(1, 2); }`; `/p/lib/a.exps`: `import "../b.exps"; macro m2(%y, %z) { ~m1(%y); b(%z); }`;
+`/p/b.exps`: `macro m1(%x) { §l; a(%x); return; }`; and the same with `/p/b.exps` importing `/p/main.exps` (a cycle), and with a routine in
+`/p/b.exps` -/
+def exF6Files (bImports : List String) (bRoutines : List Routine) : Project :=
+  [ ([['p'], "main.exps".toList], ⟨["./lib/a.exps"], [], [], [⟨some 0, "r0", none, .cons (.macroCall "m2" [.int 1, .int 2]) .nil⟩]⟩),
+    ([['p'], ['l', 'i', 'b'], "a.exps".toList], ⟨["../b.exps"],
+      [⟨"m2", ["y", "z"], .cons (.macroCall "m1" [.const "y"]) (.cons (.op "b" [.const "z"]) .nil)⟩], ["m2"], []⟩),
+    ([['p'], "b.exps".toList], ⟨bImports,
+      [⟨"m1", ["x"], .cons (.label "l") (.cons (.op "a" [.const "x"]) (.cons .ret .nil))⟩], ["m1"], bRoutines⟩) ]
+
+def exF6Check (P : Project) : String :=
+  match flatten P (fun c => (P.lookup c).isSome) [] [] [['p'], "main.exps".toList] with
+  | .error e => e.name
+  | .ok p => if decide (F5Prog p) && compiles p && decide (p.macros.map (·.name) = ["m1", "m2"]) then "ok" else "not F5"
+
+example : exF6Check (exF6Files [] []) = "ok" := by decide +kernel
+example : exF6Check (exF6Files ["/p/main.exps"] []) = "recursion" := by decide +kernel
+example : exF6Check (exF6Files [] [⟨some 0, "r", none, .nil⟩]) = "routinesInImport" := by decide +kernel
+example : exF6Check (exF6Files ["./nowhere.exps"] []) = "notFound" := by decide +kernel
 
 end ESV.C01Frontend
